@@ -23,10 +23,14 @@ Judge(e) ==
            run == CanonicalRun(D, TRUE, lim)
        IN IF e.res.k = "toxic" THEN (IF run.tox THEN "ok" ELSE "toxic-within-the-limits")
           ELSE IF e.res.k # "ok" THEN "error-on-supported-input"
-          ELSE IF e.res.text # DocOf(D, run.canon) THEN "differs-from-w3c-rdfc10"
-          ELSE IF ~run.tie /\ e.idmap # <<>> /\ lim.pl >= 6 /\ lim.dn >= 2
-                  /\ \E i \in 1..Len(e.idmap) : ~Has(run.canon, e.idmap[i][1]) \/ IdOf(run.canon, e.idmap[i][1]) # e.idmap[i][2] THEN "idmap-differs"
-          ELSE "ok"
+          ELSE LET idmapOk(c) == e.idmap = <<>> \/ lim.pl < 6 \/ lim.dn < 2
+                                 \/ \A i \in 1..Len(e.idmap) : Has(c, e.idmap[i][1]) /\ IdOf(c, e.idmap[i][1]) = e.idmap[i][2]
+               IN IF e.res.text = DocOf(D, run.canon) /\ (run.tie \/ run.amb \/ idmapOk(run.canon)) THEN "ok"
+                  \* where the W3C text leaves a choice (a tie at 5.3 or 5.4.6) every outcome it allows is accepted - and nothing else
+                  \* (the document and the identifier map come from two calls on two containers: each has to be an outcome, not both the same one)
+                  ELSE LET cs == OutcomeCanons(D) IN
+                       IF ~\E c \in cs : DocOf(D, c) = e.res.text THEN "differs-from-w3c-rdfc10"
+                       ELSE IF ~\E c \in cs : idmapOk(c) THEN "idmap-differs" ELSE "ok"
 Init == l = 1
 Next == /\ l <= Len(Rec) /\ l' = l + 1
         /\ LET v == Judge(Rec[l]) IN IF v = "ok" THEN TRUE ELSE PrintT(<<"MISMATCH", l, v>>)
